@@ -422,7 +422,9 @@ def execute(cases, exe, model, model_args=None):
     impl = C.run_cases(exe, texts, timeout=900)
     mcases = ["\n".join(lines) + "\n" for lines, crash in impl]
     mod = C.run_cases(model, mcases, timeout=900)
-    return impl, mod
+    # layer A (MapRefModel, the layer the property theorems are proved about) on the same calls
+    ref = C.run_cases(model, mcases, timeout=900, env={"MAP_MODEL": "ref"})
+    return impl, [(m, r) for m, r in zip(mod, ref)]
 
 
 def run_model_args(model, mcases, args):
@@ -448,14 +450,20 @@ def judge(case, impl, mod, check_notifs):
     if m and "script error" in m:
         return None
     il = canon(lines)
+    mod, ref = mod
     ml = canon(mod[0])
     d = C.first_diff(il, ml)
+    dr = C.first_diff(il, canon(ref[0]))
     if m:
         return ("impl-monitor", m, {"first_model_difference": d})
     if mod[1]:
         return ("correspondence", "model runner failed", mod[1][1])
     if d:
         return ("correspondence", "observable %d differs: impl %r model %r" % d, {"first_difference": d})
+    if ref[1]:
+        return ("correspondence", "layer-A model runner failed", ref[1][1])
+    if dr:
+        return ("correspondence", "layer A (MapRefModel) observable %d differs: impl %r model %r" % dr, {"first_difference": dr})
     return None
 
 
@@ -503,7 +511,7 @@ def run_property(pid, ctx, res, gens, check_notifs, rule):
         except Exception:
             pass
         res.violation(j[0], "[%s] %s" % (labels[ci], j[1]),
-                      {"script": small, "shrunk_from_ops": len(case), "impl_out": im[0][0], "model_out": mo[0][0],
+                      {"script": small, "shrunk_from_ops": len(case), "impl_out": im[0][0], "model_out": mo[0][0][0], "layerA_out": mo[0][1][0],
                        "detail": j[2], "diagnosis": diag, "check_notifs": check_notifs,
                        "replay_cmd": "./check %s --replay <this file>" % pid})
         if len(res.violations) >= 6:
@@ -525,7 +533,8 @@ def replay(pid, payload):
     print("impl :", im[0][0])
     if im[0][1]:
         print("impl crash:", im[0][1][1][-800:])
-    print("model:", mo[0][0])
+    print("model:", mo[0][0][0])
+    print("layerA:", mo[0][1][0])
     if j:
         print("VIOLATION property=%s replay=%s" % (pid, "<replayed>"))
         print("DETAIL: %s: %s" % (j[0], j[1]))
